@@ -67,6 +67,7 @@ type RefEVM struct {
 	Destroyed map[string]bool
 
 	usedBlockHash bool
+	BlockTouched  map[string]bool // addresses touched by the contract transactions of the current block (hex, upper case)
 }
 
 func NewRefEVM() *RefEVM {
@@ -86,6 +87,7 @@ func (r *RefEVM) BeginBlock(h, tm int64, proposer []byte) {
 		copy(r.coinbase[:], proposer[:20])
 	}
 	r.gp = new(core.GasPool).AddGas(refBlockGas)
+	r.BlockTouched = map[string]bool{}
 }
 
 func toEth(addr string) common.Address {
@@ -181,7 +183,16 @@ func (r *RefEVM) exec(ws *MState, from, to []byte, nonce, gas uint64, price, amt
 	e := vm.NewEVM(r.blockCtx(), core.NewEVMTxContext(msg), rs, r.cfg, vm.Config{NoBaseFee: true})
 	res := &refResult{Burn: new(big.Int)}
 	r.usedBlockHash = false
-	defer func() { res.UsedBlockHash = r.usedBlockHash }()
+	defer func() {
+		res.UsedBlockHash = r.usedBlockHash
+		if r.BlockTouched != nil {
+			// whatever a contract transaction touched (also one that failed) is the EVM's business in this block
+			for a := range rs.touched {
+				r.BlockTouched[strings.ToUpper(hex.EncodeToString(a[:]))] = true
+			}
+			r.BlockTouched[strings.ToUpper(hex.EncodeToString(r.coinbase[:]))] = true // gas accounting involves the coinbase
+		}
+	}()
 	rs.t(fromA)
 	if toA != nil {
 		rs.t(*toA)
